@@ -25,10 +25,9 @@ try:
         res["tests_pass"] = r.returncode == 0
         demo = next((f for f in ("demo.py", "demo_test.py") if os.path.exists(os.path.join(d, f))), None)
         if demo:
-            shutil.copy(os.path.join(d, demo), os.path.join(copy, "_demo.py"))
-            r = subprocess.run(["/venv/bin/python", "_demo.py"], cwd=copy, env=env, capture_output=True, text=True)
+            r = subprocess.run(["/venv/bin/python", os.path.join(d, demo)], cwd=copy, env=env, capture_output=True, text=True)
             res["demo_mutant_exit"] = r.returncode
-            r2 = subprocess.run(["/venv/bin/python", os.path.join(copy, "_demo.py")], cwd="/repo", env=dict(os.environ, PYTHONPATH="/repo"), capture_output=True, text=True)
+            r2 = subprocess.run(["/venv/bin/python", os.path.join(d, demo)], cwd="/repo", env=dict(os.environ, PYTHONPATH="/repo"), capture_output=True, text=True)
             res["demo_clean_exit"] = r2.returncode
         res["checks"] = {}
         for p in props:
